@@ -64,5 +64,10 @@ TEXTS = {
   "level": "fault_enumeration: six malformation classes (short, lenlie, addr, field, inner, blob) over all uplink type codes plus noise and oversized packets, against configurations in which the addressed equipment exists and does not exist; after every stream two fresh SYS_PONG packets must surface through bidib_read_message, an occupancy report must reach bidib_get_segment_state (normal mode) and bidib_stop must leave no lock held and no thread unjoined",
   "note": "memory errors are visible only where ASan/UBSan can see them (heap, stack, globals; not reads of uninitialised memory); the probe is sent twice because a packet directly behind line noise may legitimately be merged into the corrupted fragment",
  },
+ "C06": {
+  "technique": "model-based property-based testing (rapidcheck): generated uplink histories over all 256 type codes with well-formed payloads and both variants of the content-dependent types, bursts across the 128 bound, reads at generated points and reader threads racing the receiver under scheduler-owned interleavings; oracle = reference dispatch model whose two user-queue lists are parsed from /repo/README.md, bounded FIFO model, ASan/LSan for buffer ownership",
+  "level": "exploration: in normal mode every tabulated type must surface in exactly its queue, error variants in the error queue and their non-error variants nowhere, state-consumed and startup types in neither user queue, untabulated types in exactly one user queue and always the same; in debug mode everything except STALL in the message queue; each queue FIFO, <= 128 retained, oldest dropped, buffers byte-identical and freed by the caller exactly once; with concurrent readers every message is delivered to exactly one reader in arrival order",
+  "note": "the contract table is read from the README of the tree under test; the set of state-consumed types is transcribed from the statements of C07/C15/C01/C04; BOOST_STAT codes whose error/non-error classification is not documented (NOPOWER, NO_DCC, ON_LIMIT, ON_HOT, ON_STOP_REQ) and CS_DRIVE_EVENT reports whose address byte and event code disagree are not generated",
+ },
 }
 NOT_YET = {}
